@@ -646,7 +646,8 @@ SPECS["C20"] = {
                    "MergeMaps / SplitByTags, postMetrics, notifyFlush, semaphores) and the real ingestion handler of the upstream server. Harness: the Lambda runtime API as the manager's "
                    "http.RoundTripper (/register, long-polling /event/next that parks the heartbeat until the platform has an event, /init/error), the upstream transport with LATENCY - the "
                    "request is in flight while every other goroutine that can run runs (verifYield inside RoundTrip) -, the function (0..2 datapoints with symbolic values per invocation) and "
-                   "the platform (telemetry batch of symbolic composition after each invocation). Asserted at the arrival of every GET /event/next: it is preceded by a flush (the initial "
+                   "the platform (telemetry batch of symbolic composition after each invocation); with one invocation, an upstream request and the invocation itself may each (symbolically) "
+                   "last several seconds - every pending timer then fires while they are under way. Asserted at the arrival of every GET /event/next: it is preceded by a flush (the initial "
                    "one, then one per finished invocation), no upstream POST is in flight, and every datapoint dispatched before the latest runtime-done signal has been handled by the "
                    "upstream server; between invocations the extension is waiting in GET /event/next; after SHUTDOWN and cancellation Run returns without error and /init/error was not "
                    "called. InitError: a server that fails during start-up makes Run report exactly one /init/error, return an error and never ask for an event.",
